@@ -19,7 +19,7 @@ CHECKS = {
    "Termination is a bounded-progress restatement; sanitizers cover dependency unsafe code reached by the workload only (the crate forbids unsafe)."),
  "C02": ("exploration",
    "runtime monitoring: metamorphic differential oracle (aliased vs alias-free expanded document) + hook-trace observation of replay",
-   "Every generated document with anchors/aliases is compared, for a family of target types and the str + reader entry points, with its alias-free expansion; exhaustive for all small trees (<=4 nodes quick, <=5 thorough, <=2 anchors, <=2 aliases, block and flow, merge-key variants), seeded random trees (<=40 nodes, tags, <=6 anchors) beyond; unresolvable aliases must fail, including aliases to a name that only an EARLIER document of a multi-document stream defines (batch and iterator entry points).",
+   "Every generated document with anchors/aliases is compared, for a family of target types and the str + reader entry points, with its alias-free expansion; exhaustive for all small trees (<=5 nodes, <=2 anchors, <=2 aliases, block and flow, merge-key variants; thorough adds every placement of 3 anchors / 3 aliases on <=4-node trees and all 6-node trees over a reduced leaf alphabet), seeded random trees (<=40 nodes, tags, <=6 anchors) beyond; unresolvable aliases must fail, including aliases to a name that only an EARLIER document of a multi-document stream defines (batch and iterator entry points).",
    "Trusted: the raw saphyr-parser event stream as the meaning of a document (name-based expansion of the generator tree is cross-checked against the id-based expansion of the parser's tree; disagreement = inconclusive). Budget/alias limits off."),
  "C03": ("exploration",
    "runtime monitoring: metamorphic oracle (merge document vs reference-merged explicit document) under all three duplicate-key policies",
